@@ -20,7 +20,7 @@ from concurrent.futures import ThreadPoolExecutor
 import t2_hextables
 from props.kernel_check import LINE_RE, trace_prefix
 from vlib import build, proof
-from vlib.common import BUILD, LEAN, NPROC, flock, log, write_if_changed
+from vlib.common import BUILD, CORPUS, LEAN, NPROC, flock, log, write_if_changed
 from vlib.common import run as sh
 
 PID = "C16"
@@ -30,6 +30,18 @@ PID = "C16"
 # judgement call (findings/C16-pinched-hex.md).  False: counted in the evidence; True: reported as a
 # violation with signature "C16:pinched-accepted" (pair it with a known_findings.json entry).
 PINCHED_IN_SCOPE = False
+
+# abs_C16: on the construction operations everything is compared (a rejected call must leave every field
+# unchanged); on deletions, garbage collection, swaps and mode switches C16 only speaks about the
+# definitions, flags and counts (the shape / convention of the surviving cells) -- the caches and property
+# columns there are the subject of C01/C02/C03/C04/C17 and only counted as informational drift here.
+ADD_OPS = re.compile(r"add_|hex_add_")
+DEF_FIELDS = {"counts", "ndel", "modes", "bu", "vdel", "edel", "fdel", "cdel", "edges.live", "faces.live", "cells.live",
+              "return", "fault", "unknown-op", "retoken"}
+
+
+def relevant_xfail(op, field):
+    return bool(ADD_OPS.match(op)) or field.split(":")[0] in DEF_FIELDS or field.startswith("query")
 
 
 def hexjudge():
@@ -80,6 +92,21 @@ def gen_and_judge(ctx, drv, judge, traces, workdir):
         return list(ex.map(one, jobs))
 
 
+def replay_files(ctx, drv, judge, files, workdir):
+    """Re-execute stored histories (corpus, --replay) through the driver and judge them."""
+    workdir.mkdir(parents=True, exist_ok=True)
+    out = []
+    env = {"ASAN_OPTIONS": "detect_leaks=0:abort_on_error=1:handle_abort=1", "UBSAN_OPTIONS": "print_stacktrace=1"}
+    for i, f in enumerate(files):
+        o = workdir / ("replay-%d.trace" % i)
+        p = sh([str(drv), "--replay", str(f), "--out", str(o)], env=env, check=False, timeout=1800)
+        j = sh([str(judge), str(o)], check=False, timeout=1800)
+        if j.returncode != 0:
+            raise RuntimeError("hexjudge failed on %s: %s" % (o, j.stderr[-2000:]))
+        out.append((o, j.stdout.splitlines(), p.stderr))
+    return out
+
+
 def run_check(ctx):
     res = proof.proof_stage(ctx, PID, gen=[t2_hextables.generate])
     if res["ok"]:
@@ -91,8 +118,12 @@ def run_check(ctx):
     judge, how = hexjudge()
     workdir = BUILD / "work" / ("%s-%d-%s" % (PID, ctx.seed, ctx.tier))
     shutil.rmtree(workdir, ignore_errors=True)
-    traces = ctx.pick(48, 480)
-    results = gen_and_judge(ctx, drv, judge, traces, workdir)
+    traces = ctx.pick(192, 1920)
+    if ctx.replay:
+        results = replay_files(ctx, drv, judge, [ctx.replay], workdir)
+    else:
+        corpus = sorted((CORPUS / PID).glob("*.trace")) if (CORPUS / PID).is_dir() else []
+        results = replay_files(ctx, drv, judge, corpus, workdir) + gen_and_judge(ctx, drv, judge, traces, workdir)
 
     stats, hist_ops, hist_modes, drift = (collections.Counter() for _ in range(4))
     oracle_hits, pinched, xfails, crashes, samples = [], [], [], [], []
@@ -126,7 +157,10 @@ def run_check(ctx):
                         oracle_hits.append((tracefile, tr, step, op, "[%s] %s" % (prop, wit)))
                 elif kind_ == "XFAIL":
                     fm = re.match(r"field=(\S+) (.*)$", rest)
-                    xfails.append((tracefile, tr, step, op, fm.group(1), fm.group(2)))
+                    if relevant_xfail(op, fm.group(1)):
+                        xfails.append((tracefile, tr, step, op, fm.group(1), fm.group(2)))
+                    else:
+                        drift["base-kernel:%s:%s" % (op, fm.group(1))] += 1
         if not samples:
             first = open(tracefile).readline()
             tn = re.search(r"trace=(\d+)", first)
